@@ -280,6 +280,67 @@ func runC18(c *Ctx) {
 	checkOffIdentity(c)
 
 	// ---------------------------------------------------------------- D6
+	c.Rule("C18-D7", "a compacted slice is stored back: slices.DeleteFunc / Delete / Compact return a SHORTER slice and zero the tail of the old one; in the handler stores every such result is stored back into the field or map entry "+
+		"the operand was read from (or that entry is deleted) on every path — otherwise the registry keeps the old length with nil handlers at the end, which the next dispatch calls", 4)
+	{
+		n := 0
+		for _, fn := range p.SrcFuncs() {
+			top := originOf(EnclosingTop(fn))
+			if top.Signature.Recv() == nil {
+				continue
+			}
+			if _, isReg := isHandlerRegistryType(top.Signature.Recv().Type()); !isReg {
+				continue
+			}
+			for _, cs := range CallsTo(Calls(fn), `slices\.(DeleteFunc|Delete|Compact|CompactFunc)(\[.*\])?`) {
+				call, ok := cs.Instr.(*ssa.Call)
+				if !ok {
+					continue
+				}
+				n++
+				opnd := call.Call.Args[0]
+				name := FuncName(originOf(fn)) + "/" + trunc(Term(opnd), 40)
+				var stored instrPred
+				switch x := opnd.(type) {
+				case *ssa.Extract: // v, ok := m[k]
+					lk, isLk := x.Tuple.(*ssa.Lookup)
+					if isLk {
+						stored = func(in ssa.Instruction) bool {
+							if mu, ok := in.(*ssa.MapUpdate); ok {
+								return Term(mu.Map) == Term(lk.X) && Term(mu.Key) == Term(lk.Index) && mu.Value == ssa.Value(call)
+							}
+							return isBuiltinDeleteKey(in, Term(lk.X), Term(lk.Index))
+						}
+					}
+				case *ssa.Lookup:
+					stored = func(in ssa.Instruction) bool {
+						if mu, ok := in.(*ssa.MapUpdate); ok {
+							return Term(mu.Map) == Term(x.X) && Term(mu.Key) == Term(x.Index) && mu.Value == ssa.Value(call)
+						}
+						return isBuiltinDeleteKey(in, Term(x.X), Term(x.Index))
+					}
+				case *ssa.UnOp:
+					if fa, isFA := x.X.(*ssa.FieldAddr); isFA {
+						fv := fieldVar(fa.X.Type(), fa.Field)
+						stored = func(in ssa.Instruction) bool {
+							st, ok := in.(*ssa.Store)
+							return ok && fieldStorePred(fv)(in) && st.Val == ssa.Value(call)
+						}
+					}
+				}
+				if stored == nil {
+					c.Ob("C18-D7", name, call.Pos(), false, "cannot tell where the operand "+Term(opnd)+" of "+cs.Name+" was read from")
+					continue
+				}
+				skip, trail := CanReachExitAvoiding(fn, call, stored)
+				c.Ob("C18-D7", name, call.Pos(), !skip, "the result of "+cs.Name+" is not stored back into "+Term(opnd)+" on every path: the registry keeps its old length, with nil entries where the removed handlers' successors were: "+trailString(p, trail))
+			}
+		}
+		if n < 4 {
+			anchorFail("C18-D7: found %d slices.DeleteFunc-like calls in the handler stores, expected at least 4", n)
+		}
+	}
+
 	c.Rule("C18-D6", "registration shape: On appends to the persistent list, Once to the once-list, each under the store's mutex", 4)
 	for _, a := range []struct{ fn, field string }{{"handlerStore.on", "e.funcs"}, {"handlerStore.once", "e.funcsOnce"}} {
 		fn := p.Fn("sio", a.fn)
@@ -495,4 +556,13 @@ func freshResult(c *Ctx, rule, name string, fn *ssa.Function) {
 		walk(ret.Results[0])
 		c.Ob(rule, name+"/fresh-result", ret.Pos(), bad == "", "getAll returns "+bad+", the store's own storage, instead of a fresh copy: a handler that calls Off during dispatch compacts the slice being iterated (handlers skipped, nil entries)")
 	}
+}
+
+func isBuiltinDeleteKey(in ssa.Instruction, m, k string) bool {
+	cl, ok := in.(*ssa.Call)
+	if !ok {
+		return false
+	}
+	b, ok := cl.Call.Value.(*ssa.Builtin)
+	return ok && b.Name() == "delete" && Term(cl.Call.Args[0]) == m && Term(cl.Call.Args[1]) == k
 }
